@@ -354,7 +354,7 @@ func (w *world) runSteps(steps []kernel.Step, imp func(st kernel.Step)) bool {
 					return false
 				}
 			}
-		case "imp":
+		case "imp", "first", "rep", "inv", "idle": // engine-specific steps (C23, C20)
 			if imp != nil {
 				imp(st)
 				if len(w.q) >= 6 && !w.flush() {
@@ -379,6 +379,9 @@ func (w *world) runSteps(steps []kernel.Step, imp func(st kernel.Step)) bool {
 				w.t.fail("light-client-state-changed-by-restart", "before: %s after: %s", before, after)
 			}
 			w.run.Logf("restart %d: %s", st.Arg(0), after)
+			if w.afterRestart != nil {
+				w.afterRestart()
+			}
 			if w.run.Failed() {
 				return false
 			}
